@@ -32,7 +32,7 @@ OUT = os.path.abspath(os.environ.get('VERIF_OUT', VERIF))
 
 def setup_paths():
     import warnings
-    warnings.filterwarnings('ignore', category=SyntaxWarning)
+    warnings.filterwarnings('ignore')    # library chatter (SyntaxWarning on import, RuntimeWarning from solvers) is not parsed
     for p in (REPO, VERIF, os.path.join(VERIF, '.deps')):
         if p in sys.path: sys.path.remove(p)
     sys.path.insert(0, os.path.join(VERIF, '.deps'))
